@@ -2778,3 +2778,32 @@ QUERIES["C13"] = QUERIES["C13"] + [q_c13_heads_encode, q_c13_heads_news]
 # ------------------------------------------------------------------------------------------------
 from queries_c05 import QUERIES_C05  # noqa: E402
 QUERIES["C05"] = QUERIES.get("C05", []) + QUERIES_C05
+
+
+# ------------------------------------------------------------------------------------------------
+# Replica::insert_entry (direct ingress path): C02, C03, C07, C12
+# ------------------------------------------------------------------------------------------------
+from queries_ins import QUERIES_INS  # noqa: E402
+for _p in ("C02", "C03", "C07", "C12"):
+    QUERIES[_p] = QUERIES.get(_p, []) + QUERIES_INS
+
+
+# ------------------------------------------------------------------------------------------------
+# C08: redb-backed range primitives against the ordered-map definitions
+# ------------------------------------------------------------------------------------------------
+from queries_c08 import QUERIES_C08  # noqa: E402
+QUERIES["C08"] = QUERIES.get("C08", []) + QUERIES_C08
+
+
+# ------------------------------------------------------------------------------------------------
+# C15: persistence of download policies
+# ------------------------------------------------------------------------------------------------
+from queries_c15 import QUERIES_C15  # noqa: E402
+QUERIES["C15"] = QUERIES.get("C15", []) + QUERIES_C15
+
+
+# ------------------------------------------------------------------------------------------------
+# C11: live.rs completion handlers, executed (Exec2)
+# ------------------------------------------------------------------------------------------------
+from queries_c11 import QUERIES_C11  # noqa: E402
+QUERIES["C11"] = QUERIES.get("C11", []) + QUERIES_C11
